@@ -114,3 +114,9 @@ func VerifStorageCacheSlab(s *PersistentSlabStorage, id SlabID) (Slab, bool) {
 	v, ok := s.cache[id]
 	return v, ok
 }
+
+// VerifNewStorableSlabWithID builds a StorableSlab under a caller-chosen identifier
+// (NewStorableSlab always allocates a fresh one and stores it).
+func VerifNewStorableSlabWithID(id SlabID, storable Storable) *StorableSlab {
+	return &StorableSlab{slabID: id, storable: storable}
+}
